@@ -29,6 +29,13 @@ def run(tier):
                      workers=1, simulate=60 if quick else 1500, depth=40, tseed=seed() * 13 + 5)),
     ], par=3)
     chk.add_tlc("exhaustive", need_ok(res["mc"], "Agents exhaustive"))
+    # design-level only (no code binding): the unbuffered channels between Core handler, AgentManager, MuxAgent, PingAgent and
+    # handleChild cannot wait for each other in a cycle, also when pongs are addressed to local endpoints (TLC deadlock + liveness check)
+    for i, reqs in enumerate(['<<"app", "ping", "remote">>', '<<"ping", "ping">>', '<<"app", "app", "app">>']):
+        mm = {"MCMux.tla": "---- MODULE MCMux ----\nEXTENDS MuxChan\nMCReq == %s\n====\n" % reqs}
+        r = need_ok(run_tlc("MCMux", "SPECIFICATION Spec\nCONSTANTS\n Requests <- MCReq\nPROPERTIES Quiesces\n", name="muxchan-%d" % i, extra_files=mm, workers=2, heap="1g"),
+                    "MuxChan deadlock freedom")
+        chk.add_tlc("MuxChan (channel-level, design only) " + reqs, r)
     g = need_ok(res["gen"], "Agents generator")
     s = need_ok(res["sim"], "Agents simulate")
     chk.add_tlc("behaviours", g, {"random_deep": len(s.traces)})
